@@ -7,12 +7,18 @@ wt=$1; k=$2; sid=$3; prop=$4; shift 4
 sd=$wt/seed/$k
 out=/verif/seeded/$sid
 mkdir -p $out
+if [ -f $sd/pre.txt ]; then
+  # phase A already done by tools/seedpre.sh
+  clean_rc=$(sed -n 1p $sd/pre.txt); patched_rc=$(sed -n 2p $sd/pre.txt); base=$(sed -n 3p $sd/pre.txt)
+  cp $sd/demo_with_patch.log $out/demo_with_patch.log
+else
 cd $wt && git checkout -q -- . 
 /venv/bin/python $sd/demo.py >/dev/null 2>&1; clean_rc=$?
 git apply $sd/patch.diff || { echo "PATCH DOES NOT APPLY in worktree"; exit 1; }
 /venv/bin/python $sd/demo.py >$out/demo_with_patch.log 2>&1; patched_rc=$?
 base=$(/venv/bin/python /tmp/wt/check_baseline.py $wt 2>&1 | tail -1)
 git checkout -q -- .
+fi
 echo "demo clean rc=$clean_rc patched rc=$patched_rc baseline: $base"
 cp $sd/patch.diff $sd/demo.py $out/ ; cp $sd/README.md $out/README.md 2>/dev/null
 results=""
